@@ -180,7 +180,7 @@ def same_value(I, a, b):
     from .interp import SProto
 
     if isinstance(a, (SNum,)) and isinstance(b, SNum):
-        if a.kind != b.kind and not (a.kind in ("float", "npfloat") and b.kind in ("float", "npfloat")):
+        if a.kind != b.kind and not (a.kind in ("float", "npfloat", "npfloat32") and b.kind in ("float", "npfloat", "npfloat32")):
             return False
         return I.equal(a, b)
     if isinstance(a, SRef) or isinstance(b, SRef) or isinstance(a, SProto) or isinstance(b, SProto):
@@ -291,9 +291,20 @@ def verify(spec, tier="quick", summaries=None, only_props=None, part=None, vfilt
                 ob = Obligation("%s%s/post[%s]#p%d" % (short, vname, c.name, k), c.props or spec.props, "post")
                 if c.kind == "any":
                     continue
+                if c.kind == "if-returns" and outcome[0] != "return":
+                    continue  # nothing is claimed unless the body returns (raises, or a callee contract that is silent there)
                 if outcome[0] == "unspecified":
                     ob.status = "unknown"
                     ob.detail = outcome[1]
+                    obs.append(ob)
+                    continue
+                if c.kind == "if-returns":
+                    # a clause about the result only: nothing is claimed when the body raises
+                    if outcome[0] != "return":
+                        continue
+                    goal = z3.Implies(c.guard, to_z3b(c.check(I, outcome[1])))
+                    ob.detail = "body returns %s" % short_repr(outcome[1])
+                    discharge(P, goal, ob)
                     obs.append(ob)
                     continue
                 if c.kind == "either":
